@@ -11,9 +11,17 @@ EDITS = [
     ("C16", "testtools/content.py", "    chunk = stream.read(chunk_size)\n    while chunk:\n        yield chunk\n        chunk = stream.read(chunk_size)",
      "    while True:\n        chunk = stream.read(chunk_size)\n        if not chunk:\n            break\n        yield chunk"),
     ("C11", "testtools/testresult/real.py", "class CopyStreamResult(StreamResult):", "# note\nclass CopyStreamResult(StreamResult):"),
+    # a renamed local that no contract mentions: must still verify (exit 0)
+    ("C12", "testtools/testresult/real.py", "test_tags", "pending_tags", "all"),
+    # a renamed local that a loop invariant mentions by name: undecided (exit 2, naming the unknown name), never a VIOLATION
+    ("C15", "testtools/twistedsupport/_spinner.py", "junk", "leftovers", "in:_clean"),
+    # two independent statements swapped
+    ("C12", "testtools/testresult/real.py",
+     "        test_start, self._test_start = self._test_start, None\n        test_tags, self._test_tags = self._test_tags, (set(), set())",
+     "        test_tags, self._test_tags = self._test_tags, (set(), set())\n        test_start, self._test_start = self._test_start, None"),
 ]
 bad = 0
-for prop, path, old, new in EDITS:
+for prop, path, old, new, *mode in EDITS:
     d = tempfile.mkdtemp(prefix="he_", dir="/tmp")
     try:
         shutil.copytree("/repo/testtools", os.path.join(d, "testtools"), ignore=shutil.ignore_patterns("__pycache__"))
@@ -22,7 +30,18 @@ for prop, path, old, new in EDITS:
         if old not in s:
             print("SKIP (text not found)", prop, path)
             continue
-        open(p, "w").write(s.replace(old, new, 1))
+        if mode and mode[0] == "all":
+            import re
+            s2 = re.sub(r"\b%s\b" % re.escape(old), new, s)
+        elif mode and mode[0].startswith("in:"):
+            import re
+            fn = mode[0][3:]
+            a = s.index("    def %s(" % fn)
+            b = s.index("\n    def ", a + 1)
+            s2 = s[:a] + re.sub(r"\b%s\b" % re.escape(old), new, s[a:b]) + s[b:]
+        else:
+            s2 = s.replace(old, new, 1)
+        open(p, "w").write(s2)
         r = subprocess.run(["python3-vt", "-m", "checks.run", prop], cwd=HERE, capture_output=True, text=True,
                            env=dict(os.environ, VERIF_REPO=d, VERIF_EVIDENCE_DIR=os.path.join(d, "ev")))
         viol = [ln for ln in r.stdout.splitlines() if ln.startswith("VIOLATION")]
